@@ -122,6 +122,12 @@ func genStream(rng *vRNG, cam pCamera, edge int, o streamOpts) []*pFrame {
 		if edge > 0 && !f.MarkerLike && rng.Chance(20) {
 			f.Pix[0][rng.Intn(cam.ResX)] = 0
 			f.Pix[cam.ResY-1][rng.Intn(cam.ResX)] = 0
+			// ... also in the innermost border column on either side, on a row that is not itself
+			// border (rows picked without the PRNG, so that older case lists keep their streams)
+			if rows := cam.ResY - 2*edge; rows > 0 {
+				f.Pix[edge+(len(out)*7+3)%rows][edge-1] = 0
+				f.Pix[edge+(len(out)*5+1)%rows][cam.ResX-edge] = 0
+			}
 		}
 		if edge > 3 && !f.MarkerLike && rng.Chance(50) {
 			// ... anywhere in a wide border, up to its innermost row and column
